@@ -111,6 +111,36 @@ def impl_case(case):
     from bioscrape.simulator import py_simulate_model, ModelCSimInterface, SafeModelCSimInterface
     from bioscrape.random import py_seed_random
     warnings.simplefilter("ignore")
+    # a TWIN first: the same construction steps on a model whose species were declared up front in another (reversed) order, initialised and
+    # thrown away -- what the history's model does afterwards cannot depend on a same-named model built earlier in the process
+    # (seeded change S8_C08: compiled expressions cached by text, the SET of species names and the parameter table)
+    try:
+        names_ = ["Lz"]
+        for op in case["ops"]:
+            if op[0] == "reaction":
+                d_ = op[1]
+                for l_ in [d_[0], d_[1]] + ([d_[5], d_[6]] if len(d_) > 6 else []):
+                    for n_ in l_:
+                        if n_ not in names_: names_.append(n_)
+                for k_ in ("s1", "d"):
+                    if isinstance(d_[3], dict) and k_ in d_[3] and d_[3][k_] not in names_: names_.append(d_[3][k_])
+            elif op[0] == "rule":
+                for n_ in _rule_species(op):
+                    if n_ not in names_: names_.append(n_)
+        Tw = Model(species=list(reversed(names_)))
+        for op in case["ops"]:
+            try:
+                if op[0] == "reaction": Tw.create_reaction(*[x if not isinstance(x, dict) else dict(x) for x in op[1]])
+                elif op[0] == "set_params": Tw.set_params(dict(op[1]))
+                elif op[0] == "create_parameter": Tw.create_parameter(op[1], op[2])
+                elif op[0] == "rule":
+                    for rt in _rule_tuples(op): Tw.create_rule(*rt)
+                elif op[0] == "rule_late": Tw.create_rule("assignment", {"equation": "Lz = 2*%s + 1" % op[1]})
+            except Exception: pass
+        try: Tw.py_initialize()
+        except Exception: pass
+        del Tw
+    except Exception: pass
     M = Model(species=["Lz"]); ifaces = []; T = np.linspace(0, 2.0, 5); problems = []
     rx_defs = []; rules = []; created_params = []
     for op in case["ops"]:
